@@ -177,6 +177,52 @@ func realize(cs *Case, shapes map[string]*Node) (*realized, error) {
 
 func hx(b []byte) string { return hex.EncodeToString(b) }
 
+// hxs abbreviates long inputs in messages (the replay data has the case, from which the bytes are rebuilt).
+func hxs(b []byte) string {
+	if len(b) <= 300 {
+		return hx(b)
+	}
+	return fmt.Sprintf("%s...(%d octets)...%s", hx(b[:24]), len(b), hx(b[len(b)-8:]))
+}
+
+func trunc(s string) string {
+	if len(s) > 300 {
+		return s[:300] + "..."
+	}
+	return s
+}
+
+// short drops a long input from the replay data of a case (it is rebuilt from the case).
+func short(replay map[string]any) map[string]any {
+	if s, ok := replay["input_hex"].(string); ok && len(s) > 4096 {
+		out := map[string]any{}
+		for k, v := range replay {
+			out[k] = v
+		}
+		out["input_hex"] = s[:64] + "..."
+		return out
+	}
+	return replay
+}
+
+// lenClass names the length-octet parameters of a shape of the length dimension ("", ":len255", ":body255").
+func lenClass(n *Node) string {
+	out := ""
+	var walk func(*Node)
+	walk = func(n *Node) {
+		for _, p := range n.P {
+			if strings.HasPrefix(p, "len") || strings.HasPrefix(p, "body") {
+				out += ":" + p
+			}
+		}
+		for _, k := range n.Kids {
+			walk(k)
+		}
+	}
+	walk(n)
+	return out
+}
+
 func runCase(cs *Case, shapes map[string]*Node, rep *vh.Report, t *testing.T) {
 	r, err := realize(cs, shapes)
 	if err != nil {
@@ -232,10 +278,18 @@ func runCase(cs *Case, shapes map[string]*Node, rep *vh.Report, t *testing.T) {
 			rep.Violate(fmt.Sprintf("differential:%s:%s", which, id),
 				fmt.Sprintf("fork (%s) and encoding/asn1 both accept %s into %v but decode %s rest %x vs %s rest %x", which, hx(r.input), r.tFork, o.canon, o.rest, so.canon, so.rest), replay)
 		}
+		if wantRT && so.ok && cs.E.RTStd {
+			// byte-exact against upstream's own Marshal of upstream's own decoding
+			ms, _ := marshalStd(so)
+			if m, e := marshalFork(o); !bytes.Equal(m, ms) {
+				rep.Violate(fmt.Sprintf("marshal-differential:%s:%s%s", which, id, lenClass(r.tree)),
+					fmt.Sprintf("Marshal(Unmarshal(%s)) into %v (%s) = %s %s; encoding/asn1 gives %s", hxs(r.consumed), r.tFork, which, hxs(m), e, hxs(ms)), short(replay))
+			}
+		}
 		if wantRT {
 			if m, e := marshalFork(o); !bytes.Equal(m, r.consumed) {
-				rep.Violate(fmt.Sprintf("roundtrip:%s:%s", which, id),
-					fmt.Sprintf("Marshal(Unmarshal(%s)) into %v (%s) = %x %s", hx(r.consumed), r.tFork, which, m, e), replay)
+				rep.Violate(fmt.Sprintf("roundtrip:%s:%s%s", which, id, lenClass(r.tree)),
+					fmt.Sprintf("Marshal(Unmarshal(%s)) into %v (%s) = %s %s", hxs(r.consumed), r.tFork, which, hxs(m), e), short(replay))
 			}
 		}
 	}
@@ -353,6 +407,9 @@ func bases(cases []Case, shapes map[string]*Node, t *testing.T) []base {
 		if err != nil {
 			t.Fatal(err)
 		}
+		if len(r.input) > 2048 && !(c.C.Defect == "none" && len(c.C.Wrap) == 0) {
+			continue // the long inputs of the length-octet dimension: only the plain well-formed ones are mutated
+		}
 		out = append(out, base{k, r.input, r.tFork, r.tStd})
 	}
 	sort.Slice(out, func(i, j int) bool { return out[i].key < out[j].key })
@@ -407,6 +464,24 @@ func mutate(rng *rand.Rand, in []byte, other []byte) []byte {
 	return b
 }
 
+var (
+	setMu    sync.Mutex
+	setCache = map[reflect.Type]bool{}
+)
+
+// hasSetOf reports whether a SET OF occurs in the type (`set` tag on a slice, or a slice type named ...SET).
+func hasSetOf(t reflect.Type) bool {
+	setMu.Lock()
+	defer setMu.Unlock()
+	if v, ok := setCache[t]; ok {
+		return v
+	}
+	s := t.String()
+	v := strings.Contains(s, "set") || strings.Contains(s, "SET") || strings.Contains(s, "RDNSequence")
+	setCache[t] = v
+	return v
+}
+
 var laxExcuses = []string{"integer not minimally-encoded", "zero length OBJECT IDENTIFIER", "PrintableString contains invalid character"}
 
 // laws checks the metamorphic laws on one input; they need no model verdict.
@@ -448,6 +523,15 @@ func laws(bs *base, in []byte, rep *vh.Report, mutated bool) (accepted bool) {
 	// strict == upstream unless a deliberate difference explains it
 	switch {
 	case strict.ok && so.ok:
+		if strict.canon == so.canon && !hasSetOf(bs.tFork) {
+			// equal values marshal to equal bytes (SET OF excepted: upstream sorts, the fork does not)
+			mf, ef := marshalFork(strict)
+			ms, es := marshalStd(so)
+			if ef == "" && es == "" && !bytes.Equal(mf, ms) {
+				rep.Violate("bytes:marshal-differential:"+shape, fmt.Sprintf("both decoders decode %s into %v as %s; the fork marshals it as %s, encoding/asn1 as %s",
+					hxs(in), bs.tFork, trunc(strict.canon), hxs(mf), hxs(ms)), replay)
+			}
+		}
 		if strict.canon != so.canon || !bytes.Equal(strict.rest, so.rest) {
 			rep.Violate("bytes:differential:value:"+shape, fmt.Sprintf("fork strict and encoding/asn1 both accept %s into %v: %s rest %x vs %s rest %x",
 				hx(in), bs.tFork, strict.canon, strict.rest, so.canon, so.rest), replay)
